@@ -123,7 +123,7 @@ termination_by structural fuel => fuel
 def parseFilesE (h : Hooks) : Nat → Bytes → Nat → Nat → Nat → St → Except Err (List File × Nat × St)
   | 0, _, _, _, _, _ => .error .fuel
   | fuel+1, data, offset, lh, length, st =>
-    if offset < lh then
+    if offset ≤ lh then
       let offset := align8 offset
       if data.length ≤ offset then .error .err else
       match parseFileE h fuel (data.drop offset) st with
